@@ -51,6 +51,13 @@ def _defs():
     return {}
 
 
+def _roots():
+    from . import ctx as _ctx
+    if _ctx.has_current():
+        return getattr(_ctx.current(), "_root_defs", {})
+    return {}
+
+
 def eval_term(t, env, cache=None):
     """env: name -> float (or [num, den])."""
     if cache is None:
@@ -84,6 +91,13 @@ def eval_term(t, env, cache=None):
                 d = _defs().get(k)
                 if d is not None:      # definitional symbol (symx.axioms.as_term): evaluate its definition
                     cache[k] = eval_scalar(d, env, cache)
+                    continue
+                rd = _roots().get(k)
+                if rd is not None:     # root symbol s with s^m = u, s >= 0
+                    uval = eval_term(rd[0], env, cache)
+                    if uval < 0:
+                        raise EvalError("root of negative value")
+                    cache[k] = uval ** (1.0 / rd[1])
                     continue
                 if nm not in env:
                     raise EvalError("no value for symbol %s" % nm)
